@@ -36,8 +36,9 @@ def _alarm(signum, frame):
 def run_main(args):
     """('ok' | 'ProphycError' | 'timeout' | exception class name, message)"""
     import prophyc
-    old = signal.signal(signal.SIGALRM, _alarm)
-    signal.setitimer(signal.ITIMER_REAL, TIME_BOX)
+    # CPU time of this process (ITIMER_PROF), not wall clock: a loaded machine must not look like a hanging prophyc
+    old = signal.signal(signal.SIGPROF, _alarm)
+    signal.setitimer(signal.ITIMER_PROF, TIME_BOX)
     try:
         py_impl.run_prophyc(args)
         return 'ok', ''
@@ -53,8 +54,8 @@ def run_main(args):
             kind = 'internal:' + kind
         return kind, str(e)[:300]
     finally:
-        signal.setitimer(signal.ITIMER_REAL, 0)
-        signal.signal(signal.SIGALRM, old)
+        signal.setitimer(signal.ITIMER_PROF, 0)
+        signal.signal(signal.SIGPROF, old)
 
 
 TOKENS = ['struct', 'union', 'enum', 'typedef', 'const', 'bytes', 'u8', 'u64', 'i32', 'float', '{', '}', '[', ']', '<', '>', '<>', '<...>',
@@ -192,6 +193,8 @@ def audit_cases():
         ('input file name of 255 characters', allouts + ['@D/%s.prophy' % ('m' * 248)], {'%s.prophy' % ('m' * 248): 'struct A { u8 a; };\n'}),
         ('unterminated block comments, 60 KB', outs + ['@D/a.prophy'], {'a.prophy': '/* ' * 20000}),
         ('one block comment of 2 MB', outs + ['@D/a.prophy'], {'a.prophy': '/*' + 'x' * 2000000 + '*/ struct A { u8 a; };'}),
+        ('one block comment of 4 MB that is not terminated', outs + ['@D/a.prophy'], {'a.prophy': 'struct A { u8 a; };\n/*' + 'x' * 4000000}),
+        ('one block comment of 4 MB of stars', outs + ['@D/a.prophy'], {'a.prophy': '/*' + ' *' * 2000000 + '*/ struct A { u8 a; };'}),
         ('isar include name with a line break, schema output', ['--isar', '--prophy_out', '@D', '@D/a.xml'],
          {'a.xml': XI % '<xi:include href="types&#10;v2.xml" comment="a comment that is definitely longer than fifty characters in total"/>'}),
         ('isar name ending in a line break, schema output', ['--isar', '--prophy_out', '@D', '@D/a.xml'],
